@@ -458,6 +458,11 @@ def extract_docstring(node: Str) -> Tuple[int, str]:
         # TODO: remove me when python3.7 is not supported
         value = node.s
     lineno = extract_docstring_linenum(node)
+    try:
+        value.encode('utf-8')
+    except UnicodeEncodeError:
+        # Lone surrogates cannot be encoded when the pages are written: show them escaped.
+        value = value.encode('utf-8', 'backslashreplace').decode('utf-8')
     return lineno, inspect.cleandoc(value)
 
 
